@@ -109,7 +109,9 @@ def node_columns(pf):
     single = len(pf.nodes) == 1
     for a in pf.assets:
         for n in a.nodes:
-            cols.setdefault(n.name, []).append(a.name if single else '%s (%s)' % (a.name, n.name))
+            lab = a.name if single else '%s (%s)' % (a.name, n.name)
+            if lab not in cols.setdefault(n.name, []):      # an asset listing a node twice has one column for it
+                cols[n.name].append(lab)
     return cols
 
 
